@@ -54,7 +54,7 @@ Catalogue == {
   F("transcription", "nonpositive-pitch", NoteFns, VE), F("transcription", "ref-nonpositive-duration", NoteIvFns, VE),
   F("transcription", "est-not-nx2", NoteIvFns, VE), F("transcription", "est-negative-time", NoteIvFns, VE),
   F("transcription_velocity", "ref-velocity-length", VelFns, VE), F("transcription_velocity", "est-velocity-length", VelFns, VE),
-  F("transcription_velocity", "negative-velocity", VelFns, VE), F("transcription_velocity", "nonpositive-pitch", VelFns, VE),
+  F("transcription_velocity", "negative-velocity", VelFns, VE), F("transcription_velocity", "negative-ref-velocity", VelFns, VE), F("transcription_velocity", "nonpositive-pitch", VelFns, VE),
   F("transcription_velocity", "est-pitch-length", VelFns, VE),
   F("tempo", "ref-not-two", {"tempo.detection", "tempo.evaluate"}, VE), F("tempo", "est-not-two", {"tempo.detection", "tempo.evaluate"}, VE),
   F("tempo", "negative-tempo", {"tempo.detection", "tempo.evaluate"}, VE), F("tempo", "nan-tempo", {"tempo.detection", "tempo.evaluate"}, VE),
@@ -63,10 +63,13 @@ Catalogue == {
   F("key", "bad-format", {"key.weighted_score", "key.evaluate"}, VE), F("key", "bad-tonic", {"key.weighted_score", "key.evaluate"}, VE),
   F("key", "bad-mode", {"key.weighted_score", "key.evaluate"}, VE), F("key", "x-with-mode", {"key.weighted_score", "key.evaluate"}, VE),
   F("key", "empty-string", {"key.weighted_score", "key.evaluate"}, VE),
+  F("pattern", "unknown-similarity-metric", {"pattern.establishment_FPR", "pattern.occurrence_FPR", "pattern.evaluate"}, VE),
   F("pattern", "pattern-without-occurrence", PatFns, VE), F("pattern", "bad-onset-midi-tuple", PatFns, VE),
   F("alignment", "not-ndarray", AlignFns, VE), F("alignment", "not-1d", AlignFns, VE), F("alignment", "empty-ref", AlignFns, VE),
   F("alignment", "unequal-counts", AlignFns, VE), F("alignment", "ref-decreasing", AlignFns, VE), F("alignment", "est-decreasing", AlignFns, VE),
-  F("alignment", "negative-time", AlignFns, VE),
+  F("alignment", "negative-time", AlignFns, VE), F("alignment", "ref-negative-time", AlignFns, VE), F("alignment", "ref-not-ndarray", AlignFns, VE),
+  F("alignment", "est-not-1d", AlignFns, VE),
+  F("alignment", "ref-all-identical-without-duration", {"alignment.percentage_correct_segments", "alignment.evaluate"}, VE),
   F("alignment", "duration-nonpositive", {"alignment.percentage_correct_segments", "alignment.evaluate"}, VE),
   F("alignment", "duration-below-timestamp", {"alignment.percentage_correct_segments", "alignment.evaluate"}, VE),
   F("hierarchy", "frame-size-nonpositive", {"hierarchy.tmeasure", "hierarchy.lmeasure", "hierarchy.evaluate"}, VE),
@@ -87,7 +90,8 @@ ValidShapes0(task) ==
     [] task = "melody" -> {"random", "identical", "empty_est", "empty_ref", "both_empty", "single", "disjoint",
                            "est-starts-after-0+est_voicing", "est-starts-after-0+ref_reward", "ref-starts-after-0+est_voicing",
                            "ref-starts-after-0+ref_reward", "both-start-after-0+both", "starts-at-0+both"}
-    [] task = "multipitch" -> {"random", "identical", "empty_est", "empty_ref", "both_empty", "duplicates", "disjoint"}
+    [] task = "multipitch" -> {"random", "identical", "empty_est", "empty_ref", "both_empty", "duplicates", "disjoint",
+                               "no-frames-at-all", "ref-without-frames", "est-without-frames"}      \* empty time bases (a warning, and zeros)
     [] task \in {"transcription", "transcription_velocity"} -> {"random", "identical", "empty_est", "empty_ref", "both_empty", "single", "duplicates", "disjoint"}
     [] task = "tempo" -> {"random", "identical", "single", "empty_est"}
     [] task = "key" -> {"random", "identical"}
